@@ -161,6 +161,13 @@ inductive NondetKind where
   | debUnpack
   /-- environment variables, tty test, terminal capabilities read once at import or on the start-up path -/
   | startupEnvironment
+  /-- property of the process's REAL stdout (`isatty`, `errors`, `encoding`, terminal size) read once on the start-up path,
+      before any redirect: `cli.initialize_terminal`.  The colour decision is then a function of the process terminal state
+      (`CliState.G.terminal`), the same in the parent and in every forked worker — `colour_independent_of_jobs`. -/
+  | terminalProbe
+  /-- the same question asked on the per-file path.  NOT benign: in pool workers `check_file_s` has replaced `sys.stdout` by a
+      `StringIO`, so the answer differs between `-j 1` and `-j N` — `probe_of_swapped_stdout_depends_on_jobs`. -/
+  | terminalProbePerFile
   /-- external program or C library called on file content (iconv, dpkg): a deterministic function of its input, a
       parameter of C17 / C20; code passed as `preexec_fn` runs in the forked child only -/
   | externalTool
@@ -175,6 +182,7 @@ inductive NondetKind where
 
 def NondetKind.benign : NondetKind → Bool
   | .other => false
+  | .terminalProbePerFile => false
   | _ => true
 
 structure NondetSite where
